@@ -310,7 +310,7 @@ def enumerated(tier, seed):
         yield case
         yield dict(case, kind="cli_include", cls="cli", switches=["--to_bin", "o.bin", "--to_cas", "o.cas", "--to_dsk", "o.dsk"])
     for case in c03.enumerated("quick", seed):
-        if case.get("macro"):
+        if case.get("macro") or case.get("numpcr"):
             continue
         if any(i["t"] == "pcr" for i in case["items"]) and not any(i["t"] == "rmb" and i["n"] > 1000 for i in case["items"]):
             yield dict(kind="lines", cls="pcr_sweep", lines=c03.build(case))
